@@ -38,7 +38,7 @@ RULE = (
     "at load.  Oracle: canonical(copy) == canonical(original) (classes by qualified name, uids, attribute names "
     "and values, ordered links/ends/members, sharing), no object identity in common, mutating the copy leaves the "
     "original's canonical form unchanged, the query battery on the copy equals the one on the original (flag on), "
-    "the copy accepts a new edge; dumps never raises.  Size/depth family: chains, rings, grids, stars, cliques of "
+    "the copy accepts a new edge, and the same few structural mutations applied to the original and to the copy keep them isomorphic; dumps never raises.  Size/depth family: chains, rings, grids, stars, cliques of "
     "120-3000 vertices serialised with the recursion limit lowered to current depth + 120..250 (graph far deeper "
     "than the limit).  Extra phase: blobs + expected forms are handed to a fresh interpreter (flag on and off, "
     "pickle and dill).  Non-trivial = the reachable graph has a cycle through >= 2 object kinds and (a shared "
@@ -110,10 +110,10 @@ def strategy(tier):
     maxlen = 20 if tier == "quick" else 40
     op = st.tuples(st.sampled_from(OPS_W), st.integers(0, 11), st.integers(0, 11), st.integers(0, 47))
     world = st.builds(
-        lambda nv, nuni, ops, laws, shared, attrs, warm, root, proto, loader, via_file, fd, fl: {
+        lambda nv, nuni, ops, laws, shared, attrs, warm, root, proto, loader, via_file, fd, fl, muts: {
             "t": "world", "nv": nv, "nuni": min(nuni, nv - 1), "ops": [list(o) for o in ops], "laws": laws,
             "shared": shared, "attrs": [list(a) for a in attrs], "warm": warm, "root": root, "proto": proto,
-            "loader": loader, "via_file": via_file, "flag_dump": fd, "flag_load": fl,
+            "loader": loader, "via_file": via_file, "flag_dump": fd, "flag_load": fl, "muts": [list(m) for m in muts],
         },
         st.integers(1, 6), st.integers(0, 3), st.lists(op, max_size=maxlen),
         st.lists(st.integers(0, 3), max_size=2),
@@ -122,6 +122,7 @@ def strategy(tier):
                            st.one_of(_values, _values, st.builds(lambda k: ["shared", k], st.integers(0, 3)))), max_size=8),
         st.booleans(), st.integers(0, 4), st.integers(0, 5), st.sampled_from(["pickle", "dill"]),
         st.booleans(), st.booleans(), st.booleans(),
+        st.lists(st.tuples(st.sampled_from(["unlink", "unlink", "v1", "v2", "rl", "uf", "al", "av"]), st.integers(0, 11), st.integers(0, 11), st.integers(0, 47)), max_size=3),
     )
     nmax = 500 if tier == "quick" else 3000
     big = st.builds(
@@ -344,8 +345,33 @@ def check_world(case):
         if d:
             raise Violation("copy-answers-differ", d)
         Vertex.NEIGHBOR_CACHING = bool(case["flag_load"])
+        # the copy BEHAVES like the original under mutation: the same few structural operations applied to
+        # both pools (unlink a pre-existing pair, re-assign ends, remove memberships) keep them isomorphic
+        cvs_pre = [order2[p] for p in vs_pos]
+        muts = case.get("muts") or []
+        if muts:
+            ovs, ols = [order[p] for p in vs_pos], [order[p] for p in ls_pos]
+            cvs0, cls0 = [order2[p] for p in vs_pos], [order2[p] for p in ls_pos]
+            if ovs:
+                for pool_vs, pool_ls in ((ovs, ols), (cvs0, cls0)):
+                    wm = World.from_pool(pool_vs, pool_ls)
+                    for op in muts:
+                        r = wm.resolve(op)
+                        if r is None:
+                            continue
+                        try:
+                            wm.execute(r)
+                        except Exception:  # noqa - degenerate links may reject a call; both sides alike
+                            pass
+                fo, _ = canon.canonical(root)
+                fc, _ = canon.canonical(copy)
+                d = canon.first_form_difference(fo, fc)
+                if d:
+                    raise Violation("copy-diverges-under-mutation", f"after applying {muts} to the original and to the copy: {d}")
+                form = fo
+                order2 = canon.canonical(copy)[1]
         # the copy is usable and detached: mutate it, the original must not move
-        cvs = [order2[p] for p in vs_pos]
+        cvs = cvs_pre
         if cvs:
             try:
                 probe = canon.usability_probe(cvs)
